@@ -8,7 +8,7 @@ from lib.coqterm import cbytes, cbool, clist, copt, cN
 
 ID = "C42"
 QUICK_N = 600
-THOROUGH_N = 5000
+THOROUGH_N = 4000
 SHARD = 150
 TRANSLATORS = ["flowfilter_atoms"]
 COQ_PRELUDE = "From MV Require Import Model.FilterGrammar.\n"
@@ -654,6 +654,16 @@ def _judge(err, equiv, verd, expected):
     return None
 
 
+def _fragment(s, j):
+    """a failure inside the fragment of C42_partial.  Two families are repaired by fixes/C42-*.diff"""
+    bare = re.sub(r"'(?:[^'\\]|\\.)*'|\"(?:[^\"\\]|\\.)*\"", "Q", s)
+    if j[0] == "rejected" and re.search(r"~[A-Za-z0-9]+[)&|!(~Q]", bare):
+        return {"key": "code-before-punctuation-rejected", "what": f"parse({s!r}) {j[1]}"}
+    if j[0] in ("meaning", "verdict") and "\t" in s:
+        return {"key": "tab-in-quoted-argument-expanded", "what": f"parse({s!r}) {j[1]}"}
+    return {"key": "fragment-" + j[0], "what": f"parse({s!r}) {j[1]}"}
+
+
 def oracle(case, obs):
     if case["k"] == "str":
         if obs["err"] is not None and obs["err"] != "ValueError":
@@ -665,17 +675,12 @@ def oracle(case, obs):
         return []
     a_ok, q_ok, j_ok = obs["guard"]
     if a_ok and q_ok and j_ok:
-        # inside the fragment of C42_partial.  One family is repaired by fixes/C42-unary-wordend.diff:
-        if j[0] == "rejected" and re.search(r"~[A-Za-z0-9]+[)&|!(~'\"]", re.sub(r"'(?:[^'\\]|\\.)*'|\"(?:[^\"\\]|\\.)*\"", "Q", s)):
-            return [{"key": "code-before-punctuation-rejected", "what": f"parse({s!r}) {j[1]}"}]
-        if j[0] in ("meaning", "verdict") and "\t" in s:  # repaired by fixes/C42-keep-tabs.diff
-            return [{"key": "tab-in-quoted-argument-expanded", "what": f"parse({s!r}) {j[1]}"}]
-        return [{"key": "fragment-" + j[0], "what": f"parse({s!r}) {j[1]}"}]
+        return [_fragment(s, j)]
     rp = obs["repaired"]
     j2 = _judge(rp["err"], rp["equiv"], rp["verdicts"], obs["expected"])
     if j2 is not None:
         # not explained by the deviation: the repaired rendering is inside the fragment and fails too
-        return [{"key": "fragment-" + j2[0], "what": f"parse({rp['s']!r}) {j2[1]}"}]
+        return [_fragment(rp["s"], j2)]
     if not j_ok and q_ok and a_ok:
         if j[0] == "rejected":
             return [{"key": "juxtaposition-in-group-rejected", "what": f"parse({s!r}) {j[1]}; with explicit & it is accepted"}]
